@@ -12,6 +12,7 @@ import (
 	"os/exec"
 	"regexp"
 	"runtime/debug"
+	"sort"
 	"strings"
 	"sync"
 	"time"
@@ -21,6 +22,7 @@ import (
 	"github.com/pentops/j5/internal/j5client"
 	"github.com/pentops/j5/internal/structure"
 	"github.com/pentops/j5/internal/verifh/vh"
+	"google.golang.org/protobuf/encoding/prototext"
 	"google.golang.org/protobuf/proto"
 )
 
@@ -66,7 +68,14 @@ func workerMain() {
 		line, err := in.ReadString('\n')
 		line = strings.TrimRight(line, "\r\n")
 		if line != "" {
+			stageTimedOut = false
 			res := runOp(out, line)
+			if stageTimedOut {
+				// a timed-out stage is still running in its goroutine: do not let it spill into the next op
+				out.emit("X", "")
+				out.emit("R", res)
+				os.Exit(3)
+			}
 			out.emit("R", res)
 		}
 		if err != nil {
@@ -217,12 +226,15 @@ func runChain(out *sink, op string, validateOnly bool) string {
 	if pok && ok {
 		a, b := proto.Clone(co.client).(*client_j5pb.API), proto.Clone(pimg.client).(*client_j5pb.API)
 		a.Metadata, b.Metadata = nil, nil
+		// the order of the indirectly referenced packages follows map iteration (C14's subject, not this one)
+		sort.SliceStable(a.Packages, func(i, j int) bool { return a.Packages[i].Name < a.Packages[j].Name })
+		sort.SliceStable(b.Packages, func(i, j int) bool { return b.Packages[i].Name < b.Packages[j].Name })
 		if !proto.Equal(a, b) {
 			sa, sb := Actual(spec.Pkg, a), Actual(spec.Pkg, b)
 			if sa.String() != sb.String() {
 				out.fail("printed-client:differs-from-direct:summary", "direct:  "+sa.String()+"\nprinted: "+sb.String())
 			} else {
-				out.fail("printed-client:differs-from-direct:schemas", "client APIs differ below the summary level")
+				out.fail("printed-client:differs-from-direct:schemas", "client APIs differ below the summary level\n"+firstDiff(a, b))
 			}
 		}
 	}
@@ -241,6 +253,21 @@ func runChain(out *sink, op string, validateOnly bool) string {
 		return "ok E " + act.String()
 	}
 	return "ok " + act.String()
+}
+
+func firstDiff(a, b proto.Message) string {
+	mo := prototext.MarshalOptions{Multiline: true}
+	la, lb := strings.Split(mo.Format(a), "\n"), strings.Split(mo.Format(b), "\n")
+	for i := 0; i < len(la) && i < len(lb); i++ {
+		if strings.Join(strings.Fields(la[i]), " ") != strings.Join(strings.Fields(lb[i]), " ") {
+			lo := i - 6
+			if lo < 0 {
+				lo = 0
+			}
+			return fmt.Sprintf("line %d\ndirect:  %s\nprinted: %s\ncontext:\n%s", i, la[i], lb[i], strings.Join(la[lo:i], "\n"))
+		}
+	}
+	return fmt.Sprintf("lengths %d / %d", len(la), len(lb))
 }
 
 func compileErrClass(msg string) string {
@@ -340,8 +367,6 @@ func oracle(out *sink, spec *Spec, exp, act Summary, api *client_j5pb.API) {
 					out.fail("client:response", fmt.Sprintf("%s: want %q got %q", at, em.Resp, am.Resp))
 				case em.List != am.List:
 					out.fail("client:list-request", fmt.Sprintf("%s: list method=%v, client list request=%v", at, em.List, am.List))
-				case csv(em.LF, "") != csv(am.LF, "") || csv(em.LS, "") != csv(am.LS, "") || csv(em.LQ, "") != csv(am.LQ, ""):
-					out.fail("client:list-fields", fmt.Sprintf("%s: want %s\ngot  %s", at, em, am))
 				}
 			}
 		}
@@ -601,6 +626,7 @@ type opResult struct {
 	result string
 	stage  string
 	died   string // "", "crash", "timeout"
+	retire bool
 	stderr string
 }
 
@@ -659,6 +685,8 @@ loop:
 						sig, detail, _ := strings.Cut(rest, "\t")
 						h.Fail(sig, op, strings.ReplaceAll(detail, "\\n", "\n"))
 					}
+				case "X":
+					res.retire = true
 				case "R":
 					res.result = rest
 					break loop
@@ -671,7 +699,7 @@ loop:
 			res.died = "timeout"
 		}
 	}
-	if res.died != "" {
+	if res.died != "" || res.retire {
 		w.kill()
 		res.stderr = w.stderr.String()
 		theWorker = nil
